@@ -393,6 +393,13 @@ PROPS['C02'] = dict(
         ('StableDep', 'ex_magic_tlv_stable', 'On an input with junk in the padding the first re-encoding differs and the second equals the first (kernel-evaluated).'),
         ('FloatFacts', 'half_roundtrip', 'Float16, EVERY non-NaN pattern of the 65536: the double it parses to builds back to exactly that pattern (finite sweep evaluated by the kernel, lifted to the quantified statement).'),
         ('FloatFacts', 'half_nan_canonical', 'Float16 NaNs: every NaN pattern is re-encoded as the quiet NaN of its sign.'),
+        ('FloatField', 'float32_parse_then_build', 'Float32 fields, either byte order, any stream position: whatever 4 bytes the field parses (not a NaN pattern), building the parsed value writes exactly those bytes again - for ALL 2^32 patterns, by arithmetic on the rounding function, not by a sweep.'),
+        ('FloatField', 'float64_parse_then_build', 'Float64 fields: the same for all 2^64 patterns; the parsed value IS the pattern (widening a double is the identity).'),
+        ('FloatField', 'float16_parse_then_build', 'Float16 fields: the same (from the exhaustive half-precision theorem).'),
+        ('FloatField', 'float64_build_then_parse', 'The other direction for doubles: every non-NaN double builds to 8 bytes that parse back to exactly that double.'),
+        ('Float32', 'single_roundtrip', 'The arithmetic core: every non-NaN binary32 pattern widens to the double with exactly its value (normal, subnormal, zero, infinity), which rounds back to exactly that pattern.'),
+        ('Float32', 'single_nan_canonical', 'binary32 NaNs come back as the quiet NaN of their sign.'),
+        ('Float32', 'double_roundtrip', 'binary64: widening and narrowing are the identity on every non-NaN pattern.'),
         ('RTFacts', 'C01_roundtrip_closed', 'Bytes the construct itself produced are reproduced: for the closed sequential fragment what build emits parses back to (a value contained in) what was built, consuming exactly those bytes.'),
         ('PrimFacts', 'bytesint_parse_then_build', 'Integers of every width have exactly one accepted encoding: parse then build reproduces the input bytes.'),
         ('PrimFacts', 'varint_normalises', 'VarInt: every well-formed encoding (minimal or not) is accepted, re-encoded as the canonical one, which parses to the same value.'),
